@@ -63,7 +63,7 @@ func (GCX) Generate(seed uint64, tier string) *core.Scenario {
 	case 2:
 		b.Flags = []string{"--full", "--archive-level", "0"}
 	}
-	for _, f := range []string{"branch", "tag", "deleted-branch", "stash", "conflicted-merge", "staged", "unstaged", "second-table", "early-gc", "tag-on-deleted-branch", "soft-reset", "conflicted-cherry-pick", "conflicted-revert", "rebase-in-progress"} {
+	for _, f := range []string{"branch", "tag", "deleted-branch", "stash", "conflicted-merge", "staged", "unstaged", "second-table", "early-gc", "tag-on-deleted-branch", "soft-reset", "conflicted-cherry-pick", "conflicted-revert", "rebase-in-progress", "merge-source-deleted", "aborted-conflicted-rebase"} {
 		if r.Chance(2, 3) {
 			b.History = append(b.History, f)
 		}
@@ -347,6 +347,14 @@ func (GCX) Execute(t *testing.T, sc *core.Scenario) *core.Result {
 		}
 		cm.End()
 		res.Fault("history:conflicted-merge-in-progress")
+		if has["merge-source-deleted"] {
+			// the branch that was merged in is deleted while the merge is unfinished: its commit is now
+			// referred to by the merge state of left's working set only
+			if !must(setup, "CALL dolt_branch('-D', 'right')") {
+				return res
+			}
+			res.Fault("history:merge-source-branch-deleted")
+		}
 	}
 	if has["stash"] {
 		st, err := w.NewSession(ctx, true)
@@ -426,6 +434,35 @@ func (GCX) Execute(t *testing.T, sc *core.Scenario) *core.Result {
 			res.Fault("history:interactive-rebase-in-progress")
 		}
 		rb.End()
+	}
+	if has["aborted-conflicted-rebase"] {
+		// a rebase that stops at a data conflict and is aborted: the working branch dolt_rebase_ra is
+		// deleted, its working set stays behind - with a merge state that names a commit only that branch
+		// had. The collection has to keep it: a working set that no longer loads keeps the server from
+		// starting.
+		ra, err := w.NewSession(ctx, true)
+		if err != nil {
+			res.Panic = err.Error()
+			return res
+		}
+		if !must(setup, "INSERT INTO t VALUES (95, 'contested')", "CALL dolt_commit('-Am', 'history: the row both will change')", "CALL dolt_branch('ra')",
+			"UPDATE t SET v = 'main says' WHERE pk = 95", "CALL dolt_commit('-Am', 'history: main changes it')") {
+			return res
+		}
+		if !must(ra, "SET @@dolt_allow_commit_conflicts = 1", "CALL dolt_checkout('ra')", "INSERT INTO t VALUES (90, 'ra one')", "CALL dolt_commit('-Am', 'ra one')",
+			"UPDATE t SET v = 'ra says' WHERE pk = 95", "CALL dolt_commit('-Am', 'ra two')") {
+			return res
+		}
+		if _, err := ra.Exec(ctx, "CALL dolt_rebase('-i', 'main')"); err != nil {
+			res.Probe("rebase_refused:" + firstLine(err)[:min(50, len(firstLine(err)))])
+		} else if _, err := ra.Exec(ctx, "CALL dolt_rebase('--continue')"); err == nil {
+			res.Probe("rebase_without_conflict")
+		} else if _, err := ra.Exec(ctx, "CALL dolt_rebase('--abort')"); err == nil {
+			res.Fault("history:conflicted-rebase-aborted")
+		} else {
+			res.Probe("rebase_abort_refused:" + firstLine(err)[:min(50, len(firstLine(err)))])
+		}
+		ra.End()
 	}
 	// data that an earlier collection has already moved to the old generation and that afterwards is
 	// kept alive by a tag, or by the staged root, only
@@ -760,6 +797,29 @@ func (GCX) Execute(t *testing.T, sc *core.Scenario) *core.Result {
 		} else {
 			res.Fault("clean-restart")
 			check("after the collection and a clean restart")
+		}
+	}
+	// Last: state that no ref names any more but that is still used. The working set of an aborted
+	// rebase's working branch stays behind when the branch goes; the next rebase of that branch makes the
+	// branch again and meets that working set - which must still load after the collection. (Done after
+	// the fingerprints: it changes what they cover.)
+	if !res.Violated() && has["aborted-conflicted-rebase"] {
+		if ra, err := w.NewSession(ctx, true); err == nil {
+			ok := true
+			for _, q := range []string{"SET @@dolt_allow_commit_conflicts = 1", "CALL dolt_checkout('ra')", "CALL dolt_rebase('-i', 'main')", "CALL dolt_rebase('--abort')"} {
+				if _, err := ra.Exec(ctx, q); err != nil {
+					ok = false
+					res.Violate("state-kept-by-a-working-set-lost-by-gc", "what=rebase-after-aborted-rebase", 0, "after the collection, %s on the branch whose earlier rebase had been aborted: %s", q, firstLine(err))
+					break
+				}
+			}
+			ra.End()
+			if ok {
+				res.Probe("rebase_again_after_gc_ok")
+				if err := w.Restart(ctx); err != nil {
+					res.Violate("restart-after-gc-failed", "after=second-rebase", 0, "%s", firstLine(err))
+				}
+			}
 		}
 	}
 	res.Ops = s.Switches + b.NWriters*b.Iters
